@@ -138,6 +138,59 @@ func c18Body(c *mc.Ctx) {
 // sizes its buffer from the declared length changes strategy), delivered whole, in large uniform
 // chunks, and with one and two cut points drawn from the interesting positions (object boundaries and
 // header edges +-1, the 1 MiB marks +-1): the same objects and the same end of stream must come out.
+// c18Long: streams with long single fields. Every single cut point for streams up to 8 KiB, and uniform
+// delivery in chunks of 1..8, 99..101, 512 and 4096 bytes for all of them (a 64 KiB field then arrives in
+// 65 535 reads); the final bytes with EOF or EOF on its own.
+func c18Long(c *mc.Ctx) {
+	seeds := longFieldStreams()
+	s := seeds[c.Choose(len(seeds))]
+	mode := c.Choose(2)
+	c.Shard()
+	want, werr := s.dec.decode(bytes.NewReader(s.data))
+	if werr != nil {
+		panic(fmt.Sprintf("mc: long-field stream %s does not decode from a whole buffer: %v", s.name, werr))
+	}
+	n := len(s.data)
+	var tried int64
+	failed := false
+	try := func(r *chunkReader, how string) {
+		if failed {
+			return
+		}
+		tried++
+		var got string
+		var err error
+		if p, st := mc.Try(func() { got, err = s.dec.decode(r) }); p != nil {
+			c.Fail("panic", "%s on stream %s (%d bytes) delivered %s panicked: %v\n%s", s.dec.name, s.name, n, how, p, firstLinesOf(st, 8))
+			failed = true
+			return
+		}
+		if err != nil || got != want {
+			c.Fail("chunk-dependent", "%s on stream %s (%d bytes) delivered %s: err=%v decoded %.120s; whole-buffer read decodes %.120s", s.dec.name, s.name, n, how, err, got, want)
+			failed = true
+		}
+	}
+	for _, eof := range []bool{false, true} {
+		if mode == 0 {
+			for _, u := range []int{1, 2, 3, 4, 5, 6, 7, 8, 99, 100, 101, 512, 4096} {
+				try(&chunkReader{data: s.data, uniform: u, eofWithData: eof}, fmt.Sprintf("in %d-byte chunks (eofWithData=%v)", u, eof))
+			}
+		} else if n <= 8192 {
+			for a := 1; a < n; a++ {
+				try(&chunkReader{data: s.data, cuts: []int{a}, eofWithData: eof}, fmt.Sprintf("cut at %d (eofWithData=%v)", a, eof))
+			}
+		}
+	}
+	c.Count("deliveries", tried)
+	c.Outcome(fmt.Sprintf("%s-ok=%v", s.dec.name, !failed))
+	if tried > 0 {
+		c.Nontrivial(fmt.Sprintf("%s/%d", s.name, mode))
+	}
+	if c.WantSample() && mode == 0 {
+		c.Sample(map[string]any{"stream": s.name, "bytes": n, "decoder": s.dec.name, "deliveries_tried": tried})
+	}
+}
+
 func c18Large(c *mc.Ctx) {
 	big := []int{1<<20 - 1, 1 << 20, 1<<20 + 1, 2<<20 + 77}[c.Choose(4)]
 	pos := c.Choose(3) // where the large object sits among the three
@@ -255,10 +308,11 @@ func init() {
 		Level: "exploration",
 		Rule: "for every valid stream of the seed corpus (3 commits, 4 tables, 6 blocks, 3 block indices, 2 profiles, string-list / uint-list sequences, pkt-lines, packfiles of 1..3 objects incl. a compressed block) and its reader entry point: " +
 			"every partition of the stream into successive reads with 0, 1 and 2 cut points (3 cut points for streams <= 64 bytes, thorough <= 160 bytes), uniform chunk sizes 1..8, each with the final bytes delivered together with EOF or EOF on a separate call; " +
-			"the decoded objects, byte counts and end-of-stream condition must equal those of a single whole-buffer read. Plus packfiles of three objects of which one has 1 MiB-1, 1 MiB, 1 MiB+1 or 2 MiB+77 bytes (first, middle or last), delivered whole, in 4 KiB / 64 KiB / 1 MiB / 1 MiB+1 chunks and with every one and two cut points drawn from the object boundaries, header edges and 1 MiB marks (each +-1). evaluations = (stream, mode) cases; the counter 'deliveries' is the number of chunked decodes; non-trivial = at least one delivery pattern tried; distinct by stream and mode",
+			"the decoded objects, byte counts and end-of-stream condition must equal those of a single whole-buffer read. Plus packfiles of three objects of which one has 1 MiB-1, 1 MiB, 1 MiB+1 or 2 MiB+77 bytes (first, middle or last), delivered whole, in 4 KiB / 64 KiB / 1 MiB / 1 MiB+1 chunks and with every one and two cut points drawn from the object boundaries, header edges and 1 MiB marks (each +-1). Plus (long-fields) commits, tables, profiles, pkt-line sequences and string lists with single fields of 101, 300, 2000 .. 65535 bytes: uniform delivery in chunks of 1..8, 99..101, 512 and 4096 bytes (a field arrives in up to 65 535 reads) and every single cut point for streams up to 8 KiB. evaluations = (stream, mode) cases; the counter 'deliveries' is the number of chunked decodes; non-trivial = at least one delivery pattern tried; distinct by stream and mode",
 		Assumptions: []string{"zero-byte non-EOF reads are not generated (io.Reader discourages them)", "streams are the listed seed encodings, not all valid encodings"},
 		Harnesses: []*mc.Harness{
 			{Name: "chunked-readers", Body: c18Body, Budget: map[string]time.Duration{"quick": 60 * time.Second, "thorough": 10 * time.Minute}},
+			{Name: "long-fields", Body: c18Long, Budget: map[string]time.Duration{"quick": 60 * time.Second, "thorough": 5 * time.Minute}},
 			{Name: "large-objects", Body: c18Large, Budget: map[string]time.Duration{"quick": 90 * time.Second, "thorough": 5 * time.Minute}},
 		},
 	})
